@@ -106,6 +106,11 @@ def _tr_field(result, ctx, info, abstract_type):
     return read(result, "tr_field")
 
 
+def _tr_default(result, ctx, info, abstract_type):
+    """custom_default_type_resolver (public engine option): used where neither a field-level nor a type-level resolver exists"""
+    return read(result, "tr_default")
+
+
 LOGGED_PLAIN = ("Query.echoInt", "Query.echoStr", "Query.sum", "Mutation.set", "Query.node", "A.n", "Mid.leaves", "Query.mids")
 
 
